@@ -3177,7 +3177,11 @@ pub fn matrix_column_elements(&mut self, column_elements: &[&MatrixColumn]) -> S
       RealNumber::Hexadecimal(token) => format!("0x{}", token.to_string()),
       RealNumber::Octal(token) => format!("0o{}", token.to_string()),
       RealNumber::Binary(token) => format!("0b{}", token.to_string()),
-      RealNumber::Scientific(((whole, part), (sign, ewhole, epart))) => format!("{}.{}e{}{}.{}", whole.to_string(), part.to_string(), if *sign { "-" } else { "+" }, ewhole.to_string(), epart.to_string()),
+      RealNumber::Scientific(((whole, part), (sign, ewhole, epart))) => {
+        // the fractional parts are absent for an integer mantissa or exponent
+        let with_part = |w: String, p: String| if p.is_empty() { w } else { format!("{}.{}", w, p) };
+        format!("{}e{}{}", with_part(whole.to_string(), part.to_string()), if *sign { "-" } else { "+" }, with_part(ewhole.to_string(), epart.to_string()))
+      },
       RealNumber::Rational((numerator, denominator)) => format!("{}/{}", numerator.to_string(), denominator.to_string()),
       RealNumber::TypedInteger((token, kind_annotation)) => {
         let num = token.to_string();
